@@ -251,7 +251,7 @@ NOT_APPLICABLE = {
     "C01": "end-to-end functional equivalence needs the whole compiler plus an executable NPU semantics; not encodable for a solver within reach (DESIGN §5)",
     "C07": "the weight codec is C (mlw_encode.c); no C symbolic engine (CBMC/KLEE) in the sandbox and CrossHair realises at the extension boundary (DESIGN §5)",
     "C11": "flatbuffer (de)serialisation and graph partitioning: object graphs and byte buffers realised at the flatbuffers/NumPy boundary, nothing arithmetic to quantify over (DESIGN §5)",
-    "C12": "needs the written output file and summary CSV of whole compilations; its arithmetic core (non-overlap, alignment, reported total) is decided under C05 (DESIGN §5)",
+    "C12": "needs the written output file (OfflineMemoryAllocation metadata, tensor table) and summary CSV of whole compilations; the writer block that builds the metadata is not separable from the flatbuffer serialiser. Its arithmetic ingredients (non-overlap and alignment of co-live ranges, alignment reaching nested subgraphs, reported footprint = sum of allocations, address bookkeeping) are decided under C05 (DESIGN §5)",
 }
 
 PENDING = {}  # id -> reason, for properties planned but whose check is not yet registered
